@@ -1,6 +1,7 @@
 import AkVerif.Model.Murmur
 import AkVerif.Model.Assign
 import Driver.WireIO
+import Driver.ConnIO
 /-!
 Line-protocol driver: one operation per line on stdin, one canonical line per operation on stdout.
 The first token selects the model; unknown or malformed lines print `bad-op` (never a default).
@@ -13,6 +14,7 @@ def dispatch (toks : List String) : Option String :=
   | "c17" :: rest => Murmur.handle rest
   | "c14" :: rest => Assign.handle rest
   | "c11" :: rest => WireIO.handle rest
+  | "c12" :: rest => ConnIO.handle rest
   | _ => none
 
 partial def loop (h : IO.FS.Stream) (out : IO.FS.Stream) : IO Unit := do
